@@ -63,6 +63,13 @@ Proof.
   - cbn [repeat_list]. rewrite qsum_app, IH, Nat2Z.inj_succ. unfold Z.succ. rewrite inject_Z_plus. ring.
 Qed.
 
+(* score * k: k copies of the chords one after the other - k times the duration, 0 for k = 0 (the empty score) *)
+Lemma map_repeat_list {A B} (f : A -> B) l k : map f (repeat_list l k) = repeat_list (map f l) k.
+Proof. induction k as [|k IH]; [reflexivity|]. cbn [repeat_list]. rewrite map_app, IH. reflexivity. Qed.
+
+Lemma score_repeat_dur s k : score_dur (repeat_list s k) == inject_Z (Z.of_nat k) * score_dur s.
+Proof. unfold score_dur. rewrite map_repeat_list. apply qsum_repeat. Qed.
+
 Lemma qsum_map_mul l k : qsum (map (fun d => d * k) l) == qsum l * k.
 Proof.
   induction l as [|x l IH]; [unfold qsum; cbn [map fold_left]; ring|]. cbn [map]. rewrite !qsum_cons, IH. ring.
